@@ -1,212 +1,22 @@
-(* C03 - No input makes a public entry point panic, overflow or hang.
-   Proved for the lexer and for the whole pull parser (every input, every Unicode
-   classification [U], every extension set, debug assertions on or off): the event stream
-   of [events] (PullParser iteration) and of [meta_events] (metadata-only iteration) exists,
-   i.e. no [Panic] site is reached and no fuelled loop of the model runs out of fuel.
-   The model is tied to the code at run time by the correspondence (model says Panic <->
-   implementation panics, debug and release) and the monitor (catch_unwind around every consumer). *)
-From CL Require Import Base.StrLemmas Model.Lexer Model.Parser Proofs.LexerProofs
-  Proofs.ParserSplit Proofs.ParserTotal Proofs.ParserSpans Model.EventBridge Proofs.ParserShape.
-From CL Require Model.Events.
-From CL Require Model.Analysis Model.AnalysisSpec Proofs.AnalysisTotal.
-From CL Require Import Proofs.ParseTotal.
-From CL Require Gen.PanicSites Model.PanicMap.
-From Coq Require String.
-
-(* the token stream exists for every input: the fuel (one unit per character) never runs out *)
-Theorem C03_lexer_total : forall (U : N -> ucls) (s : str) (off : N), exists ts, lex_at U s off = Some ts.
-Proof. exact lex_total. Qed.
-Print Assumptions C03_lexer_total.
-
-(* every token consumes at least one character (the progress argument of the lexer) *)
-Theorem C03_lexer_progress :
-  forall (U : N -> ucls) s off ts, lex_at U s off = Some ts -> Forall (fun t => tstr t <> []) ts.
-Proof. intros U s off ts H. eapply lex_fuel_nonempty. exact H. Qed.
-Print Assumptions C03_lexer_progress.
-
-(* the event stream exists for every input.  [p_strict_escape cfg = false] selects the code as
-   it is now (block_parser.rs:156 no longer asserts the byte length of an escaped token); the
-   other fields of [cfg] (extensions, debug assertions, the two other pre-repair switches) are free *)
-Definition C03_events_total_statement : Prop :=
-  forall (U : N -> ucls) (cfg : pcfg) (s : str),
-    p_strict_escape cfg = false -> exists evs, events U cfg s = Done evs.
-
-Theorem C03_events_total : C03_events_total_statement.
-Proof. intros U cfg s H. destruct (events_ok U cfg s H) as (evs & E & _). exists evs. exact E. Qed.
-Print Assumptions C03_events_total.
-
-(* the same for the metadata-only iterator (PullParser::into_meta_iter) *)
-Theorem C03_meta_events_total :
-  forall (U : N -> ucls) (cfg : pcfg) (s : str),
-    p_strict_escape cfg = false -> exists evs, meta_events U cfg s = Done evs.
-Proof. intros U cfg s H. destruct (meta_events_ok U cfg s H) as (evs & E & _). exists evs. exact E. Qed.
-Print Assumptions C03_meta_events_total.
-
-(* the hypothesis is satisfiable: the configuration the runner uses for the current code *)
-Example C03_current_cfg :
-  exists cfg, p_strict_escape cfg = false /\ p_note_label_old cfg = false /\ p_fm_anywhere cfg = false.
-Proof.
-  exists {| p_ext := 0; p_debug := true; p_strict_escape := false; p_note_label_old := false; p_fm_anywhere := false |}.
-  repeat split.
-Qed.
-
-(* block splitting: in [next_block]/[more_lines] the model does not distinguish "out of fuel" from
-   "no more blocks", so totality alone would not show termination there; the fuel the model
-   passes, S (length ts), gives the same result as any larger amount, i.e. it never runs out *)
-Theorem C03_block_split_fuel_stable :
-  forall fuel ts, (length ts < fuel)%nat -> next_block fuel ts = next_block (S (length ts)) ts.
-Proof. exact next_block_fuel. Qed.
-Print Assumptions C03_block_split_fuel_stable.
-
-Theorem C03_more_lines_fuel_stable :
-  forall fuel ts, (length ts < fuel)%nat -> more_lines fuel ts = more_lines (S (length ts)) ts.
-Proof. exact more_lines_fuel. Qed.
-Print Assumptions C03_more_lines_fuel_stable.
-
-(* the code before the repair of block_parser.rs:156 (debug_assert on the byte length of an
-   escaped token): the statement without its hypothesis is false, witness "\" U+00E9 *)
-Theorem C03_events_total_refuted_old :
-  exists U cfg s, p_strict_escape cfg = true /\ events U cfg s = Panic site_escaped_len.
-Proof. exact strict_escape_old_refuted. Qed.
-Print Assumptions C03_events_total_refuted_old.
-
-(* ---- the event stream has the shape the analysis pass relies on ----
-   [abstract_events] (Model/EventBridge.v) maps the parser model's events to the events the
-   analysis model consumes; [Events.parser_shaped] is the stream grammar of Model/Events.v:
-   blocks bracketed by Start k / End k and never nested, text and components only inside a
-   block (components only inside a step), front matter / metadata / sections only between blocks,
-   no empty text event, intermediate-reference data only together with the REF modifier and
-   with a non-negative value, every timer with a name or a quantity.  These are exactly the
-   facts behind the `assert!`s and `panic!`s of event_consumer.rs 153-186, 555, 601, 776; the
-   analysis theorems of C06 take [parser_shaped] as their hypothesis.  Holds for every
-   configuration of the model (old or repaired code, any extension set, debug or release): it is
-   a statement about the streams that are returned; that one is returned is C03_events_total. *)
-Theorem C03_parser_shaped :
-  forall (U : N -> ucls) (cfg : pcfg) (s : str) (evs : list pevent),
-    events U cfg s = Done evs -> Events.parser_shaped (abstract_events evs).
-Proof. exact events_shaped. Qed.
-Print Assumptions C03_parser_shaped.
-
-(* a consumer that stops early has seen a prefix of a shaped stream *)
-Theorem C03_parser_shaped_prefix :
-  forall (U : N -> ucls) (cfg : pcfg) (s : str) (evs : list pevent) (n : nat),
-    events U cfg s = Done evs -> Events.parser_shaped_prefix (abstract_events (firstn n evs)).
-Proof. intros U cfg s evs n. exact (events_prefix_shaped U cfg s evs n). Qed.
-Print Assumptions C03_parser_shaped_prefix.
-
-(* the metadata-only iterator emits a shaped stream as well (front matter, or metadata
-   entries and diagnostics) *)
-Theorem C03_meta_parser_shaped :
-  forall (U : N -> ucls) (cfg : pcfg) (s : str) (evs : list pevent),
-    meta_events U cfg s = Done evs -> Events.parser_shaped (abstract_events evs).
-Proof. exact meta_events_shaped. Qed.
-Print Assumptions C03_meta_parser_shaped.
-
-(* not vacuous: with the current code every input has a stream, and it is shaped *)
-Example C03_parser_shaped_inhabited :
-  forall (U : N -> ucls) (cfg : pcfg) (s : str), p_strict_escape cfg = false ->
-    exists evs, events U cfg s = Done evs /\ Events.parser_shaped (abstract_events evs).
-Proof.
-  intros U cfg s H. destruct (events_ok U cfg s H) as (evs & E & _). exists evs.
-  split; [exact E|]. exact (events_shaped U cfg s evs E).
-Qed.
-
-(* ---- the analysis pass (RecipeCollector, src/analysis/event_consumer.rs) returns ----
-   For every stream of the parser's grammar (complete or cut anywhere), every case folding, YAML
-   oracle, extension record [x], converter oracle ([unit_class], [find_iq]) and source text, the model
-   of the analysis pass with the current code ([cfgF]) reaches no [Panic] site: none of the
-   collector's `assert!`/`assert_eq!`, `panic!("End event without Start")`, `panic!("Content outside
-   block")`, table indexing, `self.input[span.range()]`, nor the fuel of the inline-quantity loop.
-   (Proofs/AnalysisTotal.v lists each site with the reason.)  Three hypotheses remain and are stated:
-   [iq_shrinks] - the find_inline_quantity oracle returns a remainder shorter than its argument (the
-   real function returns a strict suffix; a model that ran out of fuel would disagree with the
-   implementation in the correspondence run of C06); [ev_span_ok] - every component span is a slice
-   of the source text (proved of the parser: C04_event_spans_ok, used in C03_parse_total below);
-   and the bound: `step_counter += 1` on a u32 (event_consumer.rs:184) overflows in a debug build
-   after 2^32 - 1 steps of one section, so the number of End events must stay below 2^32 - 2. *)
-Theorem C03_analyse_total :
-  forall ci_key yaml_ok find_iq unit_class input x evs,
-    AnalysisTotal.iq_shrinks find_iq ->
-    Events.parser_shaped_prefix evs ->
-    Forall (AnalysisTotal.ev_span_ok input) evs ->
-    (N.of_nat (AnalysisTotal.ends evs) < 4294967294)%N ->
-    exists r, Analysis.analyse ci_key yaml_ok find_iq unit_class input x Analysis.cfgF evs = Done r.
-Proof.
-  intros ci_key yaml_ok find_iq unit_class input x evs Hq.
-  exact (AnalysisTotal.analyse_total ci_key yaml_ok find_iq unit_class input x Analysis.cfgF
-           eq_refl eq_refl Hq evs).
-Qed.
-Print Assumptions C03_analyse_total.
-
-(* the bound in the form "fewer than 2^32 - 2 events" *)
-Theorem C03_analyse_total_by_length :
-  forall ci_key yaml_ok find_iq unit_class input x evs,
-    AnalysisTotal.iq_shrinks find_iq ->
-    Events.parser_shaped_prefix evs ->
-    Forall (AnalysisTotal.ev_span_ok input) evs ->
-    (N.of_nat (length evs) < 4294967294)%N ->
-    exists r, Analysis.analyse ci_key yaml_ok find_iq unit_class input x Analysis.cfgF evs = Done r.
-Proof.
-  intros ci_key yaml_ok find_iq unit_class input x evs Hq Sh Sp L.
-  apply C03_analyse_total; auto. pose proof (AnalysisTotal.ends_le evs). lia.
-Qed.
-Print Assumptions C03_analyse_total_by_length.
-
-(* ---- the whole pipeline of CooklangParser::parse returns ----
-   [parse_model] (Proofs/ParseTotal.v) = analyse . abstract_events . events: PullParser::new(input,
-   extensions) piped into analysis::parse_events(events, input, ..).  For every source text [s],
-   every Unicode classification, every configuration of the current code (any extension set, debug
-   assertions on or off; [p_strict_escape] and [p_note_label_old] false = the two repaired sites), every
-   case folding, YAML oracle, converter oracle and extension record of the analysis pass, it returns a
-   value: no [Panic] site of the lexer, parser or collector model is reached and no fuelled loop runs
-   out.  Composition of C03_events_total, C03_parser_shaped, C04_event_spans_ok and C03_analyse_total;
-   the bound of C03_analyse_total is discharged by C03_events_ends_bound (at most one End event per
-   block, at most one block per token, at most one token per character), leaving "the source has
-   fewer than 2^32 - 3 characters": beyond that the u32 step counter of a debug build could overflow.
-   The remaining hypothesis [iq_shrinks] is about the oracle standing for find_inline_quantity. *)
-Theorem C03_events_ends_bound :
-  forall (U : N -> ucls) (cfg : pcfg) (s : str) (evs : list pevent),
-    events U cfg s = Done evs -> (AnalysisTotal.ends (abstract_events evs) <= S (length s))%nat.
-Proof. intros U cfg s evs H. rewrite ends_abstract. exact (events_ends_bound U cfg s evs H). Qed.
-Print Assumptions C03_events_ends_bound.
-
-Theorem C03_parse_total :
-  forall (U : N -> ucls) (cfg : pcfg) ci_key yaml_ok find_iq unit_class (x : Analysis.aext) (s : str),
-    p_strict_escape cfg = false -> p_note_label_old cfg = false ->
-    AnalysisTotal.iq_shrinks find_iq ->
-    (N.of_nat (length s) < 4294967293)%N ->
-    exists r, parse_model U cfg ci_key yaml_ok find_iq unit_class x s = Done r.
-Proof. exact parse_total. Qed.
-Print Assumptions C03_parse_total.
-
-(* the hypotheses are satisfiable: the current configuration and an oracle that finds no inline
-   quantity; then every source below the bound has a result *)
-Example C03_parse_total_inhabited :
-  exists cfg, p_strict_escape cfg = false /\ p_note_label_old cfg = false /\
-    AnalysisTotal.iq_shrinks (fun _ => None) /\
-    forall U ci_key yaml_ok unit_class x s, (N.of_nat (length s) < 4294967293)%N ->
-      exists r, parse_model U cfg ci_key yaml_ok (fun _ => None) unit_class x s = Done r.
-Proof.
-  exists {| p_ext := 0; p_debug := true; p_strict_escape := false; p_note_label_old := false; p_fm_anywhere := false |}.
-  split; [reflexivity|]. split; [reflexivity|].
-  assert (Q : AnalysisTotal.iq_shrinks (fun _ => None)) by (intros hay b a H; discriminate).
-  split; [exact Q|]. intros U ci_key yaml_ok unit_class x s L.
-  apply C03_parse_total; auto.
-Qed.
-
-(* ---- the panic sites the theorems above talk about are the panic sites of the source ----
-   The models' [Panic site] outcomes were enumerated by hand.  Gen/PanicSites.v is REGENERATED from
-   /repo/src on every run of the check (gen/gen_panics.py, token level): every panic!/unreachable!/todo!/
-   unimplemented!/assert*!/debug_assert*! invocation (KMacro), .unwrap() (KUnwrap), .expect(..) (KExpect),
-   index or slice expression (KIndex), std call that panics on a bad argument (KCall) and compound integer
-   update or subtraction (KArith) of the non-test code of src/lexer/*.rs, src/parser/*.rs,
-   src/analysis/*.rs, src/text.rs, src/span.rs, src/located.rs, src/error.rs and src/lib.rs, as
-   (file stem, enclosing fn, kind, normalised text), without line numbers.  The statement below pins that
-   list: a site that is added, removed or edited breaks this obligation (reported by the check with file,
-   fn and text); moving code, comments and message wording do not. *)
-Import PanicSites String.
+(* REGENERATED on every run of the C03 check from /repo/src by gen/gen_panics.py: every potential panic
+   site of the non-test code of src/lexer/*.rs, src/parser/*.rs, src/analysis/*.rs, src/text.rs,
+   src/span.rs, src/located.rs, src/error.rs and src/lib.rs - panic!/unreachable!/todo!/unimplemented!/
+   assert*!/debug_assert*! invocations (KMacro), .unwrap() (KUnwrap), .expect(..) (KExpect), index and
+   slice expressions E[..] (KIndex), std calls that panic on a bad argument (KCall), compound integer
+   updates and subtractions (KArith) - as (file stem, enclosing fn, kind, text with white space and
+   string literals normalised), per file in source order.  Line numbers are deliberately absent:
+   moving code is harmless, a new or edited site changes [sites] (obligation C03_panic_inventory,
+   Properties/C03.v; treatment of every entry by the models: Model/PanicMap.v).
+   [model_sites]: every `Definition site_*` and every literal `Panic <n>` of Model/Lexer.v, Model/PText.v,
+   Model/Parser.v, Model/Analysis.v, read from those files on the same run, with its value.
+   This committed copy is a snapshot so that a fresh clone builds. *)
+From Coq Require Import List String NArith.
+From CL Require Model.Lexer Model.PText Model.Parser Model.Analysis.
+Import ListNotations.
 Local Open Scope string_scope.
-Theorem C03_panic_inventory : PanicSites.sites = [
+Inductive kind := KMacro | KUnwrap | KExpect | KIndex | KCall | KArith.
+Definition site := (string * string * kind * string)%type.
+Definition sites : list site := [
   ("lexer/cursor", "pos_within_token", KArith,
    "self.len_remaining - self.chars.as_str().len()");
   ("lexer/mod", "line_comment", KMacro,
@@ -590,32 +400,36 @@ Theorem C03_panic_inventory : PanicSites.sites = [
   ("error", "write_report", KArith,
    "core::cmp::max(w, 1) - sub")
 ].
-Proof. reflexivity. Qed.
-Print Assumptions C03_panic_inventory.
-Local Close Scope string_scope.
-
-(* every entry of the inventory has a row in Model/PanicMap.v saying how the models treat it: the model
-   site that stands for it, or the (documented, not proved) reason why the models have no outcome for
-   it, or that its function is outside the models and left to the run-time monitor *)
-Theorem C03_panic_table_covers : map fst PanicMap.panic_table = PanicSites.sites.
-Proof. reflexivity. Qed.
-Print Assumptions C03_panic_table_covers.
-
-(* the rows that name a model site name one that exists, with its value (the list of model sites is read
-   from Model/PText.v, Model/Parser.v, Model/Analysis.v on every run and refers to the constants) ... *)
-Theorem C03_table_sites_exist : PanicMap.table_sites_exist = true.
-Proof. vm_compute. reflexivity. Qed.
-Print Assumptions C03_table_sites_exist.
-
-(* ... and conversely every panic site of the three models is the image of at least one entry of the
-   inventory, except the three listed in [PanicMap.model_only] (the fuel of the model's loops, the
-   find_iq fuel, the guard of the pre-repair note label) *)
-Theorem C03_model_sites_accounted : PanicMap.model_sites_accounted = true.
-Proof. vm_compute. reflexivity. Qed.
-Print Assumptions C03_model_sites_accounted.
-
-(* the split of the table, measured *)
-Example C03_panic_table_counts :
-  (List.length PanicSites.sites, PanicMap.count_sites, PanicMap.count_unreachable, PanicMap.count_unmodelled,
-   List.length PanicSites.model_sites) = (191, 39, 107, 45, 31)%nat.
-Proof. vm_compute. reflexivity. Qed.
+Definition model_sites : list (string * N) := [
+  ("PText.site_text_append", PText.site_text_append);
+  ("Parser.site_bp_new", Parser.site_bp_new);
+  ("Parser.site_bp_finish", Parser.site_bp_finish);
+  ("Parser.site_text_offset", Parser.site_text_offset);
+  ("Parser.site_escaped_len", Parser.site_escaped_len);
+  ("Parser.site_bump_any", Parser.site_bump_any);
+  ("Parser.site_bump", Parser.site_bump);
+  ("Parser.site_mod_token", Parser.site_mod_token);
+  ("Parser.site_inter_paren", Parser.site_inter_paren);
+  ("Parser.site_recipe_tok", Parser.site_recipe_tok);
+  ("Parser.site_adv_rposition", Parser.site_adv_rposition);
+  ("Parser.site_qty_empty", Parser.site_qty_empty);
+  ("Parser.site_trim_index", Parser.site_trim_index);
+  ("Parser.site_label_underflow", Parser.site_label_underflow);
+  ("Parser.site_fuel", Parser.site_fuel);
+  ("Analysis.site_end_without_start", Analysis.site_end_without_start);
+  ("Analysis.site_end_kind_step", Analysis.site_end_kind_step);
+  ("Analysis.site_end_kind_text", Analysis.site_end_kind_text);
+  ("Analysis.site_content_outside_block", Analysis.site_content_outside_block);
+  ("Analysis.site_nontext_in_text", Analysis.site_nontext_in_text);
+  ("Analysis.site_in_text_slice", Analysis.site_in_text_slice);
+  ("Analysis.site_inter_without_ref", Analysis.site_inter_without_ref);
+  ("Analysis.site_inter_negative", Analysis.site_inter_negative);
+  ("Analysis.site_index_definition", Analysis.site_index_definition);
+  ("Analysis.site_assert_is_definition", Analysis.site_assert_is_definition);
+  ("Analysis.site_units_index", Analysis.site_units_index);
+  ("Analysis.site_assert_target_not_ref", Analysis.site_assert_target_not_ref);
+  ("Analysis.site_step_counter_overflow", Analysis.site_step_counter_overflow);
+  ("Analysis.site_iq_fuel", Analysis.site_iq_fuel);
+  ("Analysis.Panic_547", 547%N);
+  ("Analysis.Panic_572", 572%N)
+].
